@@ -155,6 +155,12 @@ variable {ε α : Type} {k : Nat} {e : REvent} {s0 s : Streams}
 @[grind ←] theorem accRR_push_notify (a : α) (h : Tr permG s0 s) :
     AccRR (ε := ε) k e s0 ((s.modStream k (rpushF e)).modStreamW k Stream.notifyRecv, .ok a) :=
   Or.inr ⟨s, h, modStreamW_acc k _ (notifyRecv_quiet _) (Tr.refl _ _)⟩
+@[grind ←] theorem accRR_push_notify_ended (a : α) (h : Tr permG s0 s) :
+    AccRR (ε := ε) k e s0 (((s.modStream k (rpushF e)).modStreamW k Stream.notifyRecv).notifyPushIfRecvEnded k, .ok a) :=
+  Or.inr ⟨s, h, notifyPushIfRecvEnded_acc trivial k (modStreamW_acc k _ (notifyRecv_quiet _) (Tr.refl _ _))⟩
+@[grind ←] theorem accRR_push_notify_push (a : α) (h : Tr permG s0 s) :
+    AccRR (ε := ε) k e s0 (((s.modStream k (rpushF e)).modStreamW k Stream.notifyRecv).modStreamW k Stream.notifyPush, .ok a) :=
+  Or.inr ⟨s, h, modStreamW_acc k _ (notifyPush_quiet _) (modStreamW_acc k _ (notifyRecv_quiet _) (Tr.refl _ _))⟩
 end
 
 theorem recvRecvData_accRR (s0 s : Streams) (k : Nat) (p : Bytes) (eos : Bool) (pad : Option Nat) (h : Tr permG s0 s) :
